@@ -217,3 +217,188 @@ Proof.
   change (k_nil (as_part T)) with (is_nil (as_part T)) in H3.
   destruct (is_nil (as_part T)); [reflexivity|]. cbn [orb] in *. exact (fp_ok_U _ _ _ H3).
 Qed.
+
+(* ================= (ii) the narrowed predicate ================= *)
+Lemma known_split base input : known_c01 base input = 0 ->
+  known_c01_v1 base input = 0 \/ k_file_narrow base input = true.
+Proof.
+  unfold known_c01. cbv zeta.
+  destruct ((known_c01_v1 base input =? 1) && k_file_narrow base input) eqn:E.
+  - intros _. right. apply andb_true_iff in E. exact (proj2 E).
+  - intros H. left. exact H.
+Qed.
+
+(* the narrowed predicate is below the former one: whatever was outside Known_C01 still is *)
+Lemma known_v1_zero base input : known_c01_v1 base input = 0 -> known_c01 base input = 0.
+Proof. intros H. unfold known_c01. cbv zeta. rewrite H. reflexivity. Qed.
+
+(* the classes 2-4 are untouched *)
+Lemma known_class_same base input : known_c01 base input <> 0 -> known_c01 base input = known_c01_v1 base input.
+Proof.
+  unfold known_c01. cbv zeta. destruct ((known_c01_v1 base input =? 1) && k_file_narrow base input).
+  - intros H. exfalso. apply H. reflexivity.
+  - intros _. reflexivity.
+Qed.
+
+Lemma narrow_in_class base input : k_file_narrow base input = true -> in_class_file input = true.
+Proof.
+  unfold k_file_narrow, in_class_file. cbv zeta. rewrite cleaned_spec_clean.
+  destruct (spec_scheme (spec_clean input)) as [[sch R]|] eqn:Es.
+  - destruct (spec_scheme_some_leading _ _ _ Es) as [-> ->]. intros H.
+    apply andb_true_iff in H. destruct H as [H H2]. apply andb_true_iff in H. destruct H as [H1 _].
+    change s_file with str_file in H1. rewrite H1. cbn [andb]. exact (k_file_ok_class R H2).
+  - rewrite (spec_scheme_none_leading _ Es). discriminate.
+Qed.
+
+Lemma narrow_no_file_base base sbase input : base_sch_rel base sbase ->
+  k_file_narrow base input = true -> no_file_base sbase = true.
+Proof.
+  unfold k_file_narrow, base_sch_rel, no_file_base. cbv zeta.
+  destruct (leading_scheme (cleaned input)) as [s|]; [|discriminate].
+  destruct base as [b|]; destruct sbase as [sb|]; try contradiction; [|reflexivity].
+  intros Hb H. apply andb_true_iff in H. destruct H as [H _]. apply andb_true_iff in H. destruct H as [_ H].
+  rewrite <- Hb. exact H.
+Qed.
+
+(* ================= (iii) the assembled statement for the narrowed predicate ================= *)
+Definition in_proved_class4 (sbase : option spec_url) (input : list N) : bool :=
+  in_proved_class3 sbase input || (no_file_base sbase && in_class_file input).
+
+Lemma in_proved_class4_of3 sbase input : in_proved_class3 sbase input = true -> in_proved_class4 sbase input = true.
+Proof. intros H. unfold in_proved_class4. rewrite H. reflexivity. Qed.
+
+(* host_hyp3 (the one host string of the class of in_proved_class3, if any) and, for a "file:" input of the file
+   class, host_agree_file on the text between "//" and the path *)
+Definition host_hyp4 (hp hpo : list N -> result host) (hd : host -> list N)
+           (shp : bool -> list N -> option spec_host) (shs : spec_host -> list N)
+           (sbase : option spec_url) (input : list N) : Prop :=
+  host_hyp3 hp hpo hd shp shs sbase input
+  /\ (no_file_base sbase && in_class_file input = true -> host_agree_file hp hd shp shs (class_host_text_f input)).
+
+Section Statements4.
+Variable dbg : bool.
+Variable hp hpo : list N -> result host.
+Variable hd : host -> list N.
+Variable shp : bool -> list N -> option spec_host.
+Variable shs : spec_host -> list N.
+
+(* coverage: outside the narrowed Known_C01 every input is in a proved class *)
+Theorem all_covers4 input base sbase : full_rel dbg shs base sbase ->
+  known_c01 base input = 0 -> in_proved_class4 sbase input = true.
+Proof.
+  intros Hb Hk. destruct (known_split base input Hk) as [H1|Hn].
+  - apply in_proved_class4_of3. exact (all_covers dbg shs input base sbase Hb H1).
+  - unfold in_proved_class4. rewrite (narrow_in_class base input Hn).
+    rewrite (narrow_no_file_base base sbase input (full_rel_sch _ _ _ _ Hb) Hn). apply orb_true_r.
+Qed.
+
+Theorem partial_equivalence_good4 input base sbase : usv_list input ->
+  full_rel dbg shs base sbase -> in_proved_class4 sbase input = true ->
+  host_hyp4 hp hpo hd shp shs sbase input ->
+  agree_good dbg shs (parse_url dbg hp hpo hd None base input) (spec_basic_url_parse shp input sbase)
+  /\ (forall su u, spec_basic_url_parse shp input sbase = BDone su -> parse_url dbg hp hpo hd None base input = POk u ->
+        full_base dbg shs u su).
+Proof.
+  intros Hu Hb Hc [HH3 HHf]. unfold in_proved_class4 in Hc.
+  destruct (in_proved_class3 sbase input) eqn:Hc3.
+  - assert (base_rel3 dbg shs base sbase) as Hb3.
+    { destruct base as [b|]; destruct sbase as [sb|]; cbn [full_rel] in Hb; try contradiction; [exact (proj1 Hb) | exact I]. }
+    pose proof (partial_equivalence_good3 dbg hp hpo hd shp shs input base sbase Hu Hb3 Hc3 HH3) as A.
+    split; [exact A|]. intros su u HS Hm. rewrite HS in A.
+    exact (class3_result_full dbg shs shp input base sbase _ su u Hu Hb Hc3 HS A Hm).
+  - cbn [orb] in Hc. pose proof Hc as Hc'. apply andb_true_iff in Hc'. destruct Hc' as [Hnf Hcf].
+    exact (class_file_good dbg hp hpo hd shp shs base sbase input Hu Hcf (full_rel_sch _ _ _ _ Hb) Hnf (HHf Hc)).
+Qed.
+
+(* C01_statement for the narrowed Known_C01 *)
+Theorem statement_all4 input base sbase : usv_list input ->
+  full_rel dbg shs base sbase -> known_c01 base input = 0 ->
+  host_hyp4 hp hpo hd shp shs sbase input ->
+  agree_good dbg shs (parse_url dbg hp hpo hd None base input) (spec_basic_url_parse shp input sbase)
+  /\ (forall su u, spec_basic_url_parse shp input sbase = BDone su -> parse_url dbg hp hpo hd None base input = POk u ->
+        full_base dbg shs u su).
+Proof.
+  intros Hu Hb Hk HH. exact (partial_equivalence_good4 input base sbase Hu Hb (all_covers4 input base sbase Hb Hk) HH).
+Qed.
+
+End Statements4.
+
+(* the host model of Model/Host.v against the Standard's host parser over the same oracle *)
+Theorem host_hyp4_model idna : (forall bs d, idna bs = Some d -> Forall dom_char_ok d) ->
+  forall sbase input, usv_list input ->
+  host_hyp4 (host_parse idna) host_parse_opaque host_display (spec_host_parser idna) spec_host_serializer sbase input.
+Proof.
+  intros Hout sbase input Hu. split; [exact (host_hyp3_model idna Hout sbase input Hu)|]. intros _.
+  apply host_agree_file_real; [exact Hout | apply class_host_text_f_usv; exact Hu].
+Qed.
+
+Theorem statement_all4_model dbg idna : IdnaOK idna -> forall input base sbase,
+  usv_list input -> full_rel dbg spec_host_serializer base sbase -> known_c01 base input = 0 ->
+  agree_good dbg spec_host_serializer
+    (parse_url dbg (host_parse idna) host_parse_opaque host_display None base input)
+    (spec_basic_url_parse (spec_host_parser idna) input sbase)
+  /\ (forall su u, spec_basic_url_parse (spec_host_parser idna) input sbase = BDone su ->
+        parse_url dbg (host_parse idna) host_parse_opaque host_display None base input = POk u ->
+        full_base dbg spec_host_serializer u su).
+Proof.
+  intros HI input base sbase Hu Hb Hk. apply statement_all4; try assumption.
+  apply host_hyp4_model; [exact (idna_out idna HI) | exact Hu].
+Qed.
+
+Theorem statement_instance4 dbg idna : IdnaOK idna -> forall input base sbase,
+  usv_list input -> full_rel dbg spec_host_serializer base sbase -> known_c01 base input = 0 ->
+  statement_shape dbg spec_host_serializer
+    (parse_url dbg (host_parse idna) host_parse_opaque host_display None base input)
+    (spec_basic_url_parse (spec_host_parser idna) input sbase).
+Proof.
+  intros HI input base sbase Hu Hb Hk. apply agree_good_shape.
+  exact (proj1 (statement_all4_model dbg idna HI input base sbase Hu Hb Hk)).
+Qed.
+
+(* the same with a UTF-8 encoding override *)
+Theorem statement_all4_model_utf8 dbg idna : IdnaOK idna -> forall input base sbase,
+  usv_list input -> full_rel dbg spec_host_serializer base sbase -> known_c01 base input = 0 ->
+  agree_good dbg spec_host_serializer
+    (parse_url dbg (host_parse idna) host_parse_opaque host_display (Some utf8_encode) base input)
+    (spec_basic_url_parse (spec_host_parser idna) input sbase).
+Proof.
+  intros HI input base sbase Hu Hb Hk. rewrite parse_url_utf8_override.
+  exact (proj1 (statement_all4_model dbg idna HI input base sbase Hu Hb Hk)).
+Qed.
+
+(* ================= the narrowed class 1: what left it, what stays ================= *)
+(* left class 1 (proved now, the sides agree):  file:///C:/a/../b ;  file://localhost/x ;  file://h.x/a/./b?q#f ;
+   fIle:<TAB>\c|/x ;  file: ;  also against a non-file base.
+   stay in class 1 (the sides differ):  file:////foo (F-C01-3) ;  file://h.x/C:/ (F-C01-1) ;  file:///C|/x (F-C01-11) ;
+   file:/a/C:/../x (F-C01-5) ;  file:///C| (the witness of C01_known_classes_refuted) ;  and, not decided by proof,
+   everything resolved against a file base *)
+Definition fnar_1 : list N := [102;105;108;101;58;47;47;47;67;58;47;97;47;46;46;47;98].
+Definition fnar_2 : list N := [102;105;108;101;58;47;47;108;111;99;97;108;104;111;115;116;47;120].
+Definition fnar_3 : list N := [102;105;108;101;58;47;47;104;46;120;47;97;47;46;47;98;63;113;35;102].
+Definition fnar_4 : list N := [102;73;108;101;58;9;92;99;124;47;120].
+Definition fnar_5 : list N := [102;105;108;101;58].
+Definition fstay_1 : list N := [102;105;108;101;58;47;47;47;47;102;111;111].
+Definition fstay_2 : list N := [102;105;108;101;58;47;47;104;46;120;47;67;58;47].
+Definition fstay_3 : list N := [102;105;108;101;58;47;47;47;67;124;47;120].
+Definition fstay_4 : list N := [102;105;108;101;58;47;97;47;67;58;47;46;46;47;120].
+
+Theorem known_file_narrowed :
+  (known_c01_v1 None fnar_1 = 1 /\ known_c01 None fnar_1 = 0)
+  /\ (known_c01_v1 None fnar_2 = 1 /\ known_c01 None fnar_2 = 0)
+  /\ (known_c01_v1 None fnar_3 = 1 /\ known_c01 None fnar_3 = 0)
+  /\ (known_c01_v1 None fnar_4 = 1 /\ known_c01 None fnar_4 = 0)
+  /\ (known_c01_v1 None fnar_5 = 1 /\ known_c01 None fnar_5 = 0)
+  /\ known_c01 None fstay_1 = 1 /\ known_c01 None fstay_2 = 1 /\ known_c01 None fstay_3 = 1 /\ known_c01 None fstay_4 = 1
+  /\ known_c01 None wit_k1 = 1 /\ known_c01 None wit_k2 = 2 /\ known_c01 None wit_k3 = 3 /\ known_c01 None wit_k4 = 4.
+Proof. vm_compute. repeat split. Qed.
+
+(* bases: a non-file base does not matter for "file:" R; a file base keeps the input in class 1 *)
+Theorem known_file_narrowed_base :
+  match parse_url true (host_parse id_idna) host_parse_opaque host_display None None nar_1,
+        parse_url true (host_parse id_idna) host_parse_opaque host_display None None file_base_text with
+  | POk bh, POk bf => known_c01 (Some bh) fnar_1 = 0 /\ known_c01 (Some bh) fnar_3 = 0
+                      /\ known_c01 (Some bf) fnar_1 = 1 /\ known_c01 (Some bf) [120] = 1 /\ known_c01 (Some bf) [47; 120] = 1
+                      /\ known_c01 (Some bf) [35; 102] = 0 /\ known_c01 (Some bf) [] = 0
+  | _, _ => False
+  end.
+Proof. vm_compute. repeat split. Qed.
